@@ -90,6 +90,11 @@ func (nd *ndArrayType) CopyFrom(other NDArrayType) {
 }
 
 func (nd *ndArrayType) Unroll() []ArrayType {
+	if Product(nd.Dims) == 0 {
+		// a view with a zero extent has no last element to locate
+		return []ArrayType{}
+	}
+
 	if nd.Contiguous() {
 		s := nd.Start
 		e := nd.Index(decrement(nd.Dims))
